@@ -319,7 +319,7 @@ func (o EOp) Line() string {
 		return "obs " + strings.Join(o.Args, " ")
 	case "haslink", "roles", "users", "iroles":
 		return o.Kind + " " + o.PType + " " + proto.EncRule(o.Args)
-	case "iusersrole", "igrant", "iusers":
+	case "iusersrole", "igrant", "iusers", "iusersres":
 		return o.Kind + " " + proto.EncRule(o.Args)
 	case "iperms":
 		return "iperms " + o.What + " " + o.PType + " " + proto.EncRule(o.Args)
@@ -690,6 +690,20 @@ func (s *Sess) Exec(o EOp) (obs string) {
 			}
 		}
 		return proto.Bool(granted)
+	case "iusersres":
+		rows, err := e.GetImplicitUsersForResource(o.Args[0])
+		if err != nil {
+			return "err"
+		}
+		if len(rows) == 0 {
+			return "L -"
+		}
+		enc := make([]string, len(rows))
+		for i, r := range rows {
+			enc[i] = proto.EncRule(r)
+		}
+		sort.Strings(enc)
+		return "L " + strings.Join(enc, " | ")
 	case "iusers":
 		us, err := e.GetImplicitUsersForPermission(o.Args...)
 		if err != nil {
